@@ -35,8 +35,9 @@ var (
 // conditional fields of block.tlb that the Go structs hold unconditionally: a
 // value is in the TL-B domain only if the field is absent (zero) when its
 // condition is false
-//   McStateExtraOther: flags:(## 16) { flags <= 1 } ... block_create_stats:(flags . 0)?BlockCreateStats
-//   McBlockExtra:      key_block:(## 1) ... config:key_block?ConfigParams
+//
+//	McStateExtraOther: flags:(## 16) { flags <= 1 } ... block_create_stats:(flags . 0)?BlockCreateStats
+//	McBlockExtra:      key_block:(## 1) ... config:key_block?ConfigParams
 func normalizeConditional(dst reflect.Value, r *prng.R) {
 	switch dst.Type() {
 	case mcOtherT:
